@@ -175,7 +175,7 @@ class Run(object):
             elif a == "ExitHeld":
                 # the process is reaped, one of its pipes stays open: processExited now, processEnded once the pipes close
                 self.reactor.ptransport.exited = True
-                status = failure.Failure(error.ProcessTerminated(exitCode=1, signal=None))
+                status = failure.Failure(error.ProcessTerminated(exitCode=1, signal=None) if int(self.reactor.seconds()) % 2 else error.ProcessDone(0))
                 self.reactor.ptransport.held_status = status
                 self.pp.processExited(status)
             elif a == "Exit" and self.reactor.ptransport.held_status is not None:
@@ -185,8 +185,13 @@ class Run(object):
                 pass                                  # (already reported as ended when the pipes were let go of)
             elif a == "Exit":
                 self.reactor.ptransport.exited = True
-                status = failure.Failure(error.ProcessTerminated(exitCode=1 if len(self.fired) % 2 == 0 else None,
-                                                                 signal=None if len(self.fired) % 2 == 0 else 15))
+                # how the process ended does not matter to the property: an error code, a signal, or a clean exit (status 0,
+                # e.g. after SIGNAL SHUTDOWN from another controller) - which one depends on how many steps came before
+                how = int(self.reactor.seconds()) % 3
+                if how == 2:
+                    status = failure.Failure(error.ProcessDone(0))
+                else:
+                    status = failure.Failure(error.ProcessTerminated(exitCode=1 if how == 0 else None, signal=None if how == 0 else 15))
                 self.pp.processExited(status)
                 self.pp.processEnded(status)
             else:
